@@ -87,10 +87,17 @@ func pubRoundTrip(k *kp, msg, sig []byte) string {
 // signOnce the key it yields is compared but does not sign again (RSA keys of ~8192
 // bits: 0.1 s per signature).
 func privRoundTrip(k *kp, msg []byte, signOnce bool) string {
+	s, _ := privRoundTripSig(k, msg, signOnce)
+	return s
+}
+
+// privRoundTripSig also returns the signature over msg made by the re-read private key
+// of the first path (verified under the original public key).
+func privRoundTripSig(k *kp, msg []byte, signOnce bool) (fail string, firstSig []byte) {
 	signed := false
 	m, err := ic.MarshalPrivateKey(k.priv)
 	if err != nil {
-		return "MarshalPrivateKey: " + err.Error()
+		return "MarshalPrivateKey: " + err.Error(), nil
 	}
 	check := func(path string, k2 ic.PrivKey, err error) string {
 		if err != nil {
@@ -117,6 +124,9 @@ func privRoundTrip(k *kp, msg []byte, signOnce bool) string {
 			if ok, err := k.pub.Verify(msg, sig); !ok || err != nil {
 				return fmt.Sprintf("%s: signature of the unmarshalled key does not verify under the original public key (ok=%v err=%v)", path, ok, err)
 			}
+			if firstSig == nil {
+				firstSig = sig
+			}
 		}
 		if id, err := peer.IDFromPrivateKey(k2); err != nil || id != k.id {
 			return path + ": IDFromPrivateKey differs after the round trip"
@@ -125,17 +135,17 @@ func privRoundTrip(k *kp, msg []byte, signOnce bool) string {
 	}
 	k2, err := ic.UnmarshalPrivateKey(m)
 	if s := check("UnmarshalPrivateKey", k2, err); s != "" {
-		return s
+		return s, nil
 	}
 	um, ok := ic.PrivKeyUnmarshallers[k.priv.Type()]
 	if !ok {
-		return "no PrivKeyUnmarshaller for type"
+		return "no PrivKeyUnmarshaller for type", nil
 	}
 	k3, err := um(rawOf(k.priv))
 	if s := check("PrivKeyUnmarshallers[type](Raw)", k3, err); s != "" {
-		return s
+		return s, nil
 	}
-	return ""
+	return "", firstSig
 }
 
 // distinctKeys: two different keys are not Equal (in any direction, public or private).
